@@ -15,8 +15,8 @@ package storage
 
 //@ func (*Storage).Get
 //@   props C01
-//@   requires s != nil && s.Driver != nil
-//@   ensures [found] err == nil ==> result != nil && result.Info != nil && Dex[mkkey(name, version)] && result.Info.Status == Dst[mkkey(name, version)]
+//@   requires s != nil && s.Driver != nil && ledgerWF()
+//@   ensures [found] err == nil ==> stored(result) && result.Name == name && result.Version == version && fresh(result) && fresh(result.Info)
 //@   ensures [absent] !Dex[mkkey(name, version)] ==> err != nil
 //@   ensures [readonly] Dex == old(Dex) && Dst == old(Dst) && Dwritten == old(Dwritten)
 
@@ -111,3 +111,7 @@ package storage
 //@   ensures [failure-adds-nothing] err != nil ==> forall k string :: Dex[k] ==> old(Dex)[k]
 //@   ensures [other-statuses-untouched] forall k string :: k != mkkey(rls.Name, rls.Version) ==> Dst[k] == old(Dst)[k] && Dname[k] == old(Dname)[k] && Dver[k] == old(Dver)[k]
 //@   ensures [well-formed] ledgerWF()
+
+//@ func Init
+//@   props C01
+//@   ensures [ready] result != nil && fresh(result) && result.Driver != nil && (d != nil ==> result.Driver == d)
